@@ -5,6 +5,7 @@ import RactorModel.Lemmas.Mux
 import RactorModel.Lemmas.RacingScan
 import RactorModel.Lemmas.RemoteComplete
 import RactorModel.Lemmas.Advert
+import RactorModel.Lemmas.Compose
 import RactorModel.Extracted
 
 /-!
@@ -816,5 +817,240 @@ example :
 #print axioms C20.failed_connect_reports_error_and_creates_no_session
 #print axioms C20.listener_survives_accept_errors
 #print axioms C20.listener_oracle_model
+
+
+/-! ## Round 4, wave 2: ONE composed system (`Model/Compose.lean`)
+
+`Compose.Sys` = one `Net` per reference × ONE shared wire per direction × ONE `Link` (session,
+transport errors, `NodeSession`, `Mirror`), with explicit coupling. The end-to-end clauses are
+proved about IT by refinement to the component theorems above. -/
+
+/-- (refinement + coupling) In every run of the composed system, the state of every reference is a
+run of `Net` (so every `Net` theorem holds for it), the session is a run of `Link`, and the private
+pipes of the `Net` of reference `p` are — at every moment — exactly the shared wires restricted to
+the elements addressed `to = p`: the shared connection IS a private FIFO pipe per reference. -/
+theorem composed_system_refines_its_components (k k' : Nat) (ops : List Compose.Op) :
+    let s := Compose.run (Compose.init k k') ops
+    (∀ p, ∃ nops, s.nets p = (Net.init k k').run nops) ∧
+    (∃ evs, s.link = Link.run {} evs) ∧
+    (∀ p, (s.nets p).fwd = Compose.projPipe p s.fwd ∧ (s.nets p).back = Compose.projPipe p s.back) := by
+  intro s
+  obtain ⟨h1, h2⟩ := Compose.run_refines ops (Compose.init k k')
+  have hi := Compose.inv_run ops _ (Compose.inv_init k k')
+  exact ⟨h1, h2, fun p => ⟨hi.fwd p, hi.back p⟩⟩
+
+/-- (the right actor, the same frame) When a shared forward stage hands on a frame addressed to
+`p`: the frame that leaves the shared wire is that very frame; it is the frame the `Net` of `p`
+takes out of its own view; the `Net` of `p` — and of no other reference — makes its `moveF` step
+(B's session hands the frame to the original `p`, which logs the same variant / sender / arguments). -/
+theorem composed_wire_hands_each_frame_to_the_original_named_by_to (k k' : Nat) (ops : List Compose.Op)
+    (i p : Nat) (f : Frame)
+    (hh : Compose.headAt i (Compose.run (Compose.init k k') ops).fwd = some (p, f)) :
+    let s := Compose.run (Compose.init k k') ops
+    ((s.nets p).fwd.move i).2 = (s.fwd.move i).2.map (·.2) ∧
+    (∀ e, (s.fwd.move i).2 = some e → e = (p, f)) ∧
+    (Compose.step s (.moveF i)).nets p = (s.nets p).step (.moveF i) ∧
+    (∀ q, q ≠ p → (Compose.step s (.moveF i)).nets q = s.nets q) := by
+  intro s
+  have hi := Compose.inv_run ops _ (Compose.inv_init k k')
+  obtain ⟨_, w2, w3, _⟩ := Compose.projPipe_move i s.fwd p f hh
+  refine ⟨by rw [hi.fwd p]; exact w2, w3, ?_, ?_⟩
+  · have hh' : Compose.headAt i s.fwd = some (p, f) := hh
+    simp only [Compose.step, hh']; exact Compose.upd_self _ _ _
+  · intro q hq
+    have hh' : Compose.headAt i s.fwd = some (p, f) := hh
+    simp only [Compose.step, hh']; exact Compose.upd_other _ _ _ _ hq
+
+/-- (a reply goes to the proxy named by `to` only) the same for the shared backward wire: the
+reply leaving it is put into the mailbox of the proxy of `p` and of no other. -/
+theorem composed_reply_goes_only_to_the_proxy_named_by_to (k k' : Nat) (ops : List Compose.Op)
+    (i p : Nat) (r : Reply)
+    (hh : Compose.headAt i (Compose.run (Compose.init k k') ops).back = some (p, r)) :
+    let s := Compose.run (Compose.init k k') ops
+    ((s.nets p).back.move i).2 = (s.back.move i).2.map (·.2) ∧
+    (∀ e, (s.back.move i).2 = some e → e = (p, r)) ∧
+    (Compose.step s (.moveB i)).nets p = (s.nets p).step (.moveB i) ∧
+    (∀ q, q ≠ p → (Compose.step s (.moveB i)).nets q = s.nets q) := by
+  intro s
+  have hi := Compose.inv_run ops _ (Compose.inv_init k k')
+  obtain ⟨_, w2, w3, _⟩ := Compose.projPipe_move i s.back p r hh
+  refine ⟨by rw [hi.back p]; exact w2, w3, ?_, ?_⟩
+  · have hh' : Compose.headAt i s.back = some (p, r) := hh
+    simp only [Compose.step, hh']; exact Compose.upd_self _ _ _
+  · intro q hq
+    have hh' : Compose.headAt i s.back = some (p, r) := hh
+    simp only [Compose.step, hh']; exact Compose.upd_other _ _ _ _ hq
+
+/-- (end to end, clauses 1–2) Through ANY reference `p` of the composed system — whatever the
+other references, the shared wires, the session and the control stream do — what the original `p`
+has received is a prefix of what was sent through `p` (same variant, sender and arguments, nothing
+invented, duplicated or reordered), per sender in sending order, and with the original alive, the
+proxy running and everything drained it is exactly what was sent. -/
+theorem composed_delivery_is_fifo_per_sender_with_the_same_fields (k k' : Nat) (ops : List Compose.Op)
+    (p sender : Nat) :
+    let s := Compose.run (Compose.init k k') ops
+    let n := s.nets p
+    n.recvd <+: n.sent ∧
+    (n.recvd.filter (·.sender == sender)) <+: (n.sent.filter (·.sender == sender)) ∧
+    (n.targetUp = true → Compose.accepts s p = true → n.quiet = true → n.recvd = n.sent) := by
+  intro s n
+  obtain ⟨nops, hn⟩ := (Compose.run_refines ops (Compose.init k k')).1 p
+  have h1 := order_preserved k k' nops
+  have h2 := per_sender_order k k' nops sender
+  have h3 := delivered_at_rest k k' nops
+  have e : n = (Net.init k k').run nops := hn
+  dsimp only at h1 h2 h3
+  rw [← e] at h1 h2 h3
+  refine ⟨h1.1, h2, fun ht ha hq => h3 ht ?_ hq⟩
+  simp only [Compose.accepts, Compose.running, Bool.and_eq_true] at ha
+  exact ha.2
+
+/-- (end to end, clause 3) Through any reference `p`: a caller only ever gets the answer the
+original gave to ITS call, at most once; and with the proxy running and everything drained every
+answer has reached its caller unless that caller had given up. -/
+theorem composed_replies_reach_exactly_their_caller (k k' : Nat) (ops : List Compose.Op) (p : Nat) :
+    let s := Compose.run (Compose.init k k') ops
+    let n := s.nets p
+    (∀ q d, (q, d) ∈ n.delivered → (q, d) ∈ n.answered) ∧ (n.delivered.map (·.1)).Nodup ∧
+    (Compose.accepts s p = true → n.quiet = true → ∀ e ∈ n.answered, e ∈ n.delivered ∨ e.1 ∈ n.closed) := by
+  intro s n
+  obtain ⟨nops, hn⟩ := (Compose.run_refines ops (Compose.init k k')).1 p
+  have h1 := replies_not_cross_wired k k' nops
+  have h2 := reply_at_most_once k k' nops
+  have h3 := replies_complete_at_rest k k' nops
+  have e : n = (Net.init k k').run nops := hn
+  dsimp only at h1 h2 h3
+  rw [← e] at h1 h2 h3
+  refine ⟨h1, h2.1, fun ha hq => (h3 ?_).2 hq⟩
+  simp only [Compose.accepts, Compose.running, Bool.and_eq_true] at ha
+  exact ha.2
+
+/-- (sends succeed iff the proxy actor runs — DERIVED) `accepts s p` is the status of the proxy
+actor of `p` in the composed state (made by `get_or_spawn_remote_actor` and not stopped). It is a
+THEOREM that this holds exactly when `p` is in `remote_actors`; an accepted cast enters the proxy's
+mailbox and the `sent` log, a refused one changes nothing of the reference and is reported as an
+error; and a reference that is a member of any group accepts sends. -/
+theorem composed_send_succeeds_iff_proxy_runs (k k' : Nat) (ops : List Compose.Op) (p a b : Nat) :
+    let s := Compose.run (Compose.init k k') ops
+    let s' := Compose.step s (.cast p a b)
+    (Compose.accepts s p = true ↔ p ∈ s.link.mirror.proxies) ∧
+    (Compose.accepts s p = true →
+      (s'.nets p).sent = (s.nets p).sent ++ [⟨false, a, b⟩] ∧ s'.accepted = s.accepted ++ [(p, ⟨false, a, b⟩)] ∧
+      s'.refused = s.refused) ∧
+    (Compose.accepts s p = false →
+      s'.nets p = s.nets p ∧ s'.accepted = s.accepted ∧ s'.refused = s.refused ++ [(p, ⟨false, a, b⟩)]) ∧
+    (∀ g, Compose.inGroup s g p = true → Compose.accepts s p = true) := by
+  intro s s'
+  have hi := Compose.inv_run ops _ (Compose.inv_init k k')
+  obtain ⟨evs, hl⟩ := (Compose.run_refines ops (Compose.init k k')).2
+  have hm : Compose.MInv s.link.mirror := by
+    rw [hl]; exact Compose.minv_run evs _ (by intro e he; simp [Compose.init] at he)
+  have hst : Compose.accepts s p = true ↔ p ∈ s.link.mirror.proxies := by
+    rw [show Compose.accepts s p = s.link.mirror.proxies.contains p from hi.status p]
+    exact List.contains_iff_mem
+  refine ⟨hst, fun h => ?_, Compose.cast_refused s p a b, fun g hg => ?_⟩
+  · obtain ⟨c1, _, c3, c4⟩ := Compose.cast_accepted s p a b h
+    exact ⟨c1, c3, c4⟩
+  · rw [hst]
+    simp only [Compose.inGroup, List.contains_iff_mem] at hg
+    exact hm _ hg
+
+/-- (end to end, clauses 6–7: the session closes) After ANY transport error reported to the
+reader or the writer task, once the session and the `NodeSession` have handled their stop signals:
+for EVERY reference the proxy actor is stopped — sends through it fail and change nothing — and it
+is in no group; and this stays so whatever happens afterwards. `accepts` here is the proxy's
+status in the composed state, not membership in a table. -/
+theorem composed_transport_error_stops_every_reference (k k' : Nat) (ops more : List Compose.Op)
+    (hf : (Compose.run (Compose.init k k') ops).link.faulted = true) (p : Nat) :
+    let t := Compose.run (Compose.settle (Compose.run (Compose.init k k') ops)) more
+    Compose.accepts t p = false ∧ (∀ g, Compose.inGroup t g p = false) ∧
+      ∀ a b, (Compose.step t (.cast p a b)).nets p = t.nets p ∧
+        (Compose.step t (.cast p a b)).refused = t.refused ++ [(p, ⟨false, a, b⟩)] := by
+  intro t
+  obtain ⟨evs, hl⟩ := (Compose.run_refines ops (Compose.init k k')).2
+  have hli : Link.Inv (Compose.run (Compose.init k k') ops).link := by
+    rw [hl]; exact Link.inv_run evs _ Link.inv_init
+  have hd := Link.settle_down _ hli hf
+  obtain ⟨evs', hl'⟩ := (Compose.run_refines more (Compose.settle (Compose.run (Compose.init k k') ops))).2
+  rw [Compose.settle_link] at hl'
+  have hd' := (Link.down_run evs' _ hd).1
+  have hmir : t.link.mirror = {} := by rw [hl']; exact hd'.mirror
+  have hi : Compose.Inv t := Compose.inv_run more _ (Compose.inv_step _ _ (Compose.inv_step _ _
+    (Compose.inv_run ops _ (Compose.inv_init k k'))))
+  have ha : Compose.accepts t p = false := by
+    simp only [Compose.accepts, hi.status p, hmir]; rfl
+  refine ⟨ha, fun g => by simp only [Compose.inGroup, hmir]; rfl, fun a b => ?_⟩
+  obtain ⟨c1, _, c3⟩ := Compose.cast_refused t p a b ha
+  exact ⟨c1, c3⟩
+
+/-- (end to end, clauses 6–7: the original stops) When the peer announces the end of the original
+of a LIVE reference `p` (`Terminate`), its proxy actor is stopped for good: whatever happens
+afterwards (including later control messages) sends through it fail and it is in no group. -/
+theorem composed_terminate_stops_the_reference_for_good (k k' : Nat) (ops more : List Compose.Op)
+    (p : Nat) (pids : List Nat) (hp : p ∈ pids)
+    (hlive : Compose.accepts (Compose.run (Compose.init k k') ops) p = true) :
+    let t := Compose.run (Compose.step (Compose.run (Compose.init k k') ops) (.link (.ctl (.terminate pids)))) more
+    Compose.accepts t p = false ∧ (∀ g, Compose.inGroup t g p = false) ∧
+      ∀ a b, (Compose.step t (.cast p a b)).nets p = t.nets p := by
+  intro t
+  have hi0 := Compose.inv_run ops _ (Compose.inv_init k k')
+  have hi1 := Compose.inv_step _ (.link (.ctl (.terminate pids))) hi0
+  have hi : Compose.Inv t := Compose.inv_run more _ hi1
+  -- after the step `p` is not in `remote_actors`
+  have hnot : p ∉ (Compose.step (Compose.run (Compose.init k k') ops) (.link (.ctl (.terminate pids)))).link.mirror.proxies := by
+    simp only [Compose.step, Compose.restrictEv, Compose.restrict, Link.step]
+    split
+    · simp [Mirror.step, hp]
+    · rename_i hn
+      obtain ⟨evs, hl⟩ := (Compose.run_refines ops (Compose.init k k')).2
+      have hli : Link.Inv (Compose.run (Compose.init k k') ops).link := by
+        rw [hl]; exact Link.inv_run evs _ Link.inv_init
+      have : (Compose.run (Compose.init k k') ops).link.nodeUp = false := by simpa [Link.isClose] using hn
+      rw [hli.node this]; simp
+  have hmade : (Compose.run (Compose.init k k') ops).made.contains p = true := by
+    simp only [Compose.accepts, Compose.running, Bool.and_eq_true] at hlive
+    exact hlive.1
+  have hstop : Compose.stopped (Compose.step (Compose.run (Compose.init k k') ops) (.link (.ctl (.terminate pids)))) p = true := by
+    have hr := hi1.status p
+    have hc : (Compose.step (Compose.run (Compose.init k k') ops) (.link (.ctl (.terminate pids)))).link.mirror.proxies.contains p = false := by
+      simpa using hnot
+    rw [hc] at hr
+    have hm1 : (Compose.step (Compose.run (Compose.init k k') ops) (.link (.ctl (.terminate pids)))).made.contains p = true := by
+      have : p ∈ (Compose.run (Compose.init k k') ops).made := by simpa using hmade
+      simp [Compose.step, this]
+    simp only [Compose.running, hm1, Bool.true_and] at hr
+    simp only [Compose.stopped, hm1, hr, Bool.true_and, Bool.not_false]
+  have hst := Compose.stopped_run more _ p hstop
+  have ha : Compose.accepts t p = false := by
+    have h2 : (t.nets p).linkUp = false := by
+      have := hst
+      simp only [Compose.stopped, Bool.and_eq_true, Bool.not_eq_true'] at this
+      exact this.2
+    simp only [Compose.accepts, Compose.running, h2, Bool.and_false]
+  obtain ⟨evs, hl⟩ := (Compose.run_refines (ops ++ [.link (.ctl (.terminate pids))] ++ more) (Compose.init k k')).2
+  have ht : t = Compose.run (Compose.init k k') (ops ++ [.link (.ctl (.terminate pids))] ++ more) := by
+    simp [t, Compose.run, List.foldl_append]
+  have hm : Compose.MInv t.link.mirror := by
+    rw [ht, hl]; exact Compose.minv_run evs _ (by intro e he; simp [Compose.init] at he)
+  refine ⟨ha, fun g => ?_, fun a b => (Compose.cast_refused t p a b ha).1⟩
+  cases hg : Compose.inGroup t g p with
+  | false => rfl
+  | true =>
+    simp only [Compose.inGroup, List.contains_iff_mem] at hg
+    have := hm _ hg
+    have hr := hi.status p
+    simp only [Compose.accepts] at ha
+    rw [ha] at hr
+    have : t.link.mirror.proxies.contains p = true := by simpa using this
+    rw [this] at hr; simp at hr
+
+#print axioms C20.composed_system_refines_its_components
+#print axioms C20.composed_wire_hands_each_frame_to_the_original_named_by_to
+#print axioms C20.composed_reply_goes_only_to_the_proxy_named_by_to
+#print axioms C20.composed_delivery_is_fifo_per_sender_with_the_same_fields
+#print axioms C20.composed_replies_reach_exactly_their_caller
+#print axioms C20.composed_send_succeeds_iff_proxy_runs
+#print axioms C20.composed_transport_error_stops_every_reference
+#print axioms C20.composed_terminate_stops_the_reference_for_good
 
 end C20
